@@ -824,8 +824,51 @@ def rel_pointwise(job, outs):
 RELATIONS["pointwise"] = rel_pointwise
 
 
+class EchoBits(Job):
+    """Echo must report the latest input bit for bit — also for signed zeros, subnormals and the extremes of the range
+    (wave-5 seed C01e: Echo flushed subnormal inputs and -0.0 to +0.0); `inner` optionally wraps it in identity-like
+    combinators (GTE with a clip of -max, Add with Constant 0 is NOT one: -0 + 0 = +0)."""
+    kind = "echobits"
+
+    def __init__(self, bits):
+        self.e, self.bits = ECHO, bits
+
+    def impl_cases(self):
+        return [Case("f", gen.render(ECHO, "f"), ["X " + b for b in self.bits])]
+
+    def impl_rel_cases(self):
+        return self.impl_cases()
+
+    def decide(self, impl, rel, model):
+        for name, lines in (("debug assertions on", impl[0]), ("debug assertions off", rel[0])):
+            for t, (b, l) in enumerate(zip(self.bits, lines)):
+                if l != "S " + b:
+                    return dict(explanation="step %d (%s): Echo was given the f64 bit pattern %s (%r) and reports %s" % (t + 1, name, b, dec_f(b), l),
+                                expected="S " + b, actual=l)
+        return None
+
+    def nontrivial_key(self, impl):
+        return ("echobits", tuple(self.bits))
+
+    def to_json(self):
+        return dict(kind=self.kind, bits=self.bits)
+
+    @staticmethod
+    def from_json(d):
+        return EchoBits(d["bits"])
+
+    def shrink_candidates(self):
+        return [EchoBits(self.bits[:-1]), EchoBits(self.bits[1:])] if len(self.bits) > 1 else []
+
+
+JOB_KINDS["echobits"] = EchoBits
+
+
 def jobs_C14(rng, tier):
     js = []
+    for _ in range(scale_n(tier, 6, 40)):
+        js.append(EchoBits([rng.choice(SPECIAL_BITS + ["0000000000000005", "800fffffffffffff", "7fefffffffffffff", "ffefffffffffffff",
+                                                      "0008000000000000", "3cb0000000000000"]) for _ in range(rng.randint(4, 16))]))
     for _ in range(scale_n(tier, 40, 400)):
         # GTE/LTE cache their answer, so "function of the child's current output" presupposes a child whose
         # readiness never reverts (every catalogue view, C08): probe scripts here are None-prefix-then-values
